@@ -26,7 +26,7 @@ def deep_same(a, b):
     return same_events(a, b)
 
 
-@harness(instances=_inst, timeout=(90, 900), s2=I(0, 6), **pipe.params())
+@harness(instances=_inst, timeout=(90, 900), s2=I(0, 4), **pipe.params(gmax=1))
 def h_resubscribe(a, inst):
     """two subscriptions to the SAME observable object at 200 and 200+s2 (overlapping or sequential): identical records modulo the shift"""
     sch = make_scheduler()
@@ -123,7 +123,7 @@ ENCODED = ["reactivex/observable/catch.py", "reactivex/observable/onerrorresumen
            "reactivex/observable/fromiterable.py", "reactivex/observable/range.py", "reactivex/observable/generate.py",
            "reactivex/observable/defer.py", "reactivex/observable/case.py", "reactivex/observable/ifthen.py",
            "reactivex/observable/using.py", "reactivex/operators/__init__.py"]
-BOUNDS = {"quick": "every catalogued cold-safe operator (depth 1) over cold test sources, N in 1..2, second subscription s2 in [0,6] "
+BOUNDS = {"quick": "every catalogued cold-safe operator (depth 1) over cold test sources, N in 1..2, gaps in [0,1], second subscription s2 in [0,4] "
                    "ticks after the first (overlapping and sequential); 32 creation functions / source combinators over two cold "
                    "sources with two or three subscriptions, s2 in [0,12]", "thorough": "N in 1..3"}
 ASSUMES = ["Tick/Span time stub", "callbacks are pure and argument collections are lists (re-iterable), as the statement requires",
